@@ -86,6 +86,8 @@ enum Sig {
 
 struct Acc {
     thorough: bool,
+    /// which seed configuration forms level 0 (0 = the constructor's rule, 1 = six rules)
+    seed: usize,
 }
 
 struct Inst {
@@ -452,17 +454,15 @@ impl World for Acc {
     type Inst = Inst;
 
     fn name(&self) -> String {
-        format!("multisig-smart-account{}", if self.thorough { "-t" } else { "" })
+        format!("multisig-smart-account{}-seed{}", if self.thorough { "-t" } else { "" }, self.seed)
     }
 
-    fn seeds(&self) -> usize {
-        2
-    }
-    fn seed_name(&self, s: usize) -> String {
-        ["one-default-rule", "three-default+three-call-rules"][s].into()
+    fn seed_name(&self, _s: usize) -> String {
+        ["one-default-rule", "three-default+three-call-rules"][self.seed].into()
     }
 
-    fn fresh(&self, seed: usize) -> (Inst, u32) {
+    fn fresh(&self, _seed: usize) -> (Inst, u32) {
+        let seed = self.seed;
         let e = envx::mk_env(100);
         let verifier = e.register(wrap::MockVerifier, ());
         let pol = [e.register(wrap::MockPolicy, ()), e.register(wrap::MockPolicy, ())];
@@ -566,6 +566,10 @@ impl World for Acc {
     fn key(&self, i: &Inst) -> [u8; 32] {
         envx::storage_digest(&i.e, false)
     }
+    /// every accepted step runs thousands of __check_auth probes: always one task per operation
+    fn wide_expand(&self, _n: usize) -> bool {
+        true
+    }
 }
 
 fn main() {
@@ -574,7 +578,10 @@ fn main() {
         "model_checking",
         "phase 1: level-BFS over add/remove context rule (types Default, Call(T1), Create(W); signer sets over {s1,s2 external, d delegated}; policy sets over {P1,P2}; valid_until none|now|now+1), add/remove signer, add/remove policy, update valid_until on the real account example; phase 2, for every configuration reached: the real __check_auth for every single context x every supplied-signer map (absent/valid/invalid per signer incl. an unknown one) x ledger {now, now+2} x every can_enforce assignment x enforce refusal, and ordered context pairs with a 7-map signer family; an independent resolver predicts acceptance and the exact multiset of enforce calls; end-to-end execute through the account with crafted signatures",
         |tier: Tier, r: &mut Runner| {
-            r.world(&Acc { thorough: tier == Tier::Thorough }, &Bounds::new(2, tier.pick(45, 570)));
+            let th = tier == Tier::Thorough;
+            r.world(&Acc { thorough: th, seed: 0 }, &Bounds::new(2, tier.pick(40, 420)));
+            // the six-rule seed: every single edit of it (quick), every pair of edits with the quick alphabet (thorough)
+            r.world(&Acc { thorough: false, seed: 1 }, &Bounds::new(tier.pick(1, 2), tier.pick(15, 150)));
             if let Some(rep) = r.report() {
                 rep.require(
                     &["add_context_rule", "remove_context_rule", "add_signer", "remove_signer", "add_policy", "remove_policy", "update_valid_until"],
